@@ -290,26 +290,29 @@ class Lib:
     """What the flag does. Each probe runs with the *other* flags that would interfere neutralised
     (a write probe under `as_sealed(True)` would fail for the wrong reason)."""
     pg = self.pg
-    if name in ('notify_on_change', 'enable_type_check', 'allow_writable_accessors'):
+    if name == 'as_sealed':
+      return self._behaviour(name)                 # rebind on existing objects: no accessor involved
+    if name == 'allow_writable_accessors':
       with pg.as_sealed(False):
         return self._behaviour(name)
     if name == 'allow_partial':
-      with pg.as_sealed(False):
-        with pg.enable_type_check(True):
-          return self._behaviour(name)
-    return self._behaviour(name)
+      with pg.as_sealed(False), pg.allow_writable_accessors(True), pg.enable_type_check(True):
+        return self._behaviour(name)
+    with pg.as_sealed(False), pg.allow_writable_accessors(True):
+      return self._behaviour(name)
 
   def _behaviour(self, name):
     pg = self.pg
     if name == 'notify_on_change':
-      o = self.OnChange(x=1)
+      o = self.tls.onchange
       before = o.calls
-      o.rebind(x=2)
+      o.rebind(x=o.x + 1)
       return {'on_change_called': o.calls > before}
     if name == 'enable_type_check':
-      d = pg.Dict(x=1, value_spec=pg.typing.Dict([('x', pg.typing.Int())]))
+      d = self.tls.typed
       try:
         d.rebind(x='not an int')
+        d.rebind(x=1)
         return {'bad_type_rejected': False}
       except (TypeError, ValueError):
         return {'bad_type_rejected': True}
@@ -317,7 +320,7 @@ class Lib:
       out = {}
       for key, d in (('unsealed_write_raises', self.tls.unsealed), ('sealed_write_raises', self.tls.sealed)):
         try:
-          d.rebind(a=2)
+          d.rebind(a=d.sym_getattr('a') + 1)
           out[key] = False
         except pg.WritePermissionError:
           out[key] = True
@@ -350,6 +353,8 @@ class Lib:
     self.tls.acc_w = pg.Dict(a=1, accessor_writable=True)
     self.tls.acc_nw = pg.Dict(a=1, accessor_writable=False)
     self.tls.functor = self.Probe(SENTINEL, SENTINEL, override_args=True)
+    self.tls.onchange = self.OnChange(x=1)
+    self.tls.typed = pg.Dict(x=1, value_spec=pg.typing.Dict([('x', pg.typing.Int())]))
 
   def reset_process_state(self):
     """Known process-wide cells back to their import-time state (each case starts clean)."""
